@@ -75,6 +75,30 @@ func rsaKeyPEM() []byte {
 type vault struct {
 	names map[string]bool
 	seed  [32]byte
+	// other: further names present in the store at the same time, each with its OWN key (look-alikes of the
+	// case's names: trimmed, padded, case-folded, normalised ... spellings). The store selects strictly by the
+	// byte-exact name it is asked for, so a caller that alters a name gets another key or "not found".
+	other map[string][32]byte
+}
+
+// seedFor returns the key material stored under exactly this name.
+func (v *vault) seedFor(name string) ([32]byte, bool) {
+	if v.names[name] {
+		return v.seed, true
+	}
+	s, ok := v.other[name]
+	return s, ok
+}
+
+// addLookAlike stores another key under name (unless name is one of the case's own names).
+func (v *vault) addLookAlike(name string) {
+	if v.names[name] {
+		return
+	}
+	if v.other == nil {
+		v.other = map[string][32]byte{}
+	}
+	v.other[name] = sha256.Sum256(append([]byte("c01-look-alike/"), name...))
 }
 
 func newVault(label string, names ...string) *vault {
@@ -98,11 +122,12 @@ func symSize(alg string) int {
 }
 
 func (v *vault) wrap(fk []byte, alg, name string) ([]byte, error) {
-	if !v.names[name] {
+	seed, ok := v.seedFor(name)
+	if !ok {
 		return nil, fmt.Errorf("vault: no key named %q", name)
 	}
 	if n := symSize(alg); n > 0 {
-		key, err := kitcrypto.ParseKey([]byte(base64.StdEncoding.EncodeToString(v.seed[:n])), "")
+		key, err := kitcrypto.ParseKey([]byte(base64.StdEncoding.EncodeToString(seed[:n])), "")
 		if err != nil {
 			return nil, err
 		}
@@ -124,11 +149,12 @@ func (v *vault) wrap(fk []byte, alg, name string) ([]byte, error) {
 }
 
 func (v *vault) unwrap(wfk []byte, alg, name string) ([]byte, error) {
-	if !v.names[name] {
+	seed, ok := v.seedFor(name)
+	if !ok {
 		return nil, fmt.Errorf("vault: no key named %q", name)
 	}
 	if n := symSize(alg); n > 0 {
-		key, err := kitcrypto.ParseKey([]byte(base64.StdEncoding.EncodeToString(v.seed[:n])), "")
+		key, err := kitcrypto.ParseKey([]byte(base64.StdEncoding.EncodeToString(seed[:n])), "")
 		if err != nil {
 			return nil, err
 		}
@@ -239,7 +265,8 @@ func (m *cbMon) initOwned() {
 // ownedUnwrap answers from the key table (filling a slot on the first request).
 func (m *cbMon) ownedUnwrap(wfk []byte, alg, name string) ([]byte, error) {
 	if !m.v.names[name] {
-		return nil, fmt.Errorf("vault: no key named %q", name)
+		// not one of the case's names: a look-alike with its own key, or unknown - answered by the store as it is
+		return m.v.unwrap(wfk, alg, name)
 	}
 	// every name of the case denotes the same key, so the table is keyed by (algorithm, wrapped key)
 	id := alg + "\x00" + string(wfk)
@@ -813,6 +840,12 @@ func head(b []byte, n int) string {
 
 // runCase returns false only if the case could not be judged (inconclusive).
 func runCase(idx int, s spec) bool {
+	names := nameStyles[s.Names]
+	return runCaseWith(idx, s, names, newVault(strconv.Itoa(idx), names[0], names[1], names[2]), "")
+}
+
+// runCaseWith runs all oracles of one case with explicit key names and key store.
+func runCaseWith(idx int, s spec, names [3]string, v *vault, note string) bool {
 	rng := mon.NewRNG("c01-case", idx)
 	L := 0
 	if s.Len == lenRandom {
@@ -821,10 +854,9 @@ func runCase(idx int, s spec) bool {
 		L = fixedLens[s.Len]
 	}
 	pt := mon.NewRNG("c01-pt", idx).Bytes(L)
-	c := &caseCtx{idx: idx, s: s, L: L, names: nameStyles[s.Names]}
-	keyName, decName, override := c.names[0], c.names[1], c.names[2]
+	c := &caseCtx{idx: idx, s: s, L: L, names: names, note: note}
+	keyName, decName := c.names[0], c.names[1]
 	alg := algs[s.Alg]
-	v := newVault(strconv.Itoa(idx), keyName, decName, override)
 	cb := &cbMon{v: v, busy: idx%2 == 1, owned: idx%3 == 0, argMode: argModeOf(idx)}
 	if cb.argMode != argUntouched {
 		c.sigSuffix = "/wrap-arg=" + argModeNames[cb.argMode]
@@ -1446,18 +1478,18 @@ func TestCheck(t *testing.T) {
 		"Lengths {0,1,2,15,16,17,k*65536-1,k*65536,k*65536+1 (k=1..4), seeded random <= 400 KiB}; ciphers {nil, AES-GCM, ChaCha20-Poly1305}; the five algorithm ids and the aliases AES, RSA, each wrapped for real by kit's crypto package (AES-KW, AES-CBC no-pad 128/192/256, RSA-OAEP-256 2048 bit); "+
 		"source styles {all-at-once, 1-byte, seeded random chunks, zero-length reads interleaved, last data together with EOF, io.Pipe writer with random write sizes}; consumers {io.ReadAll, 1-byte/61-byte buffer, random sizes, 70000-byte buffer}. "+
 		"The first cases form a seeded covering array of strength 2 over these 13 dimensions (every pair of values of every two dimensions), the thorough tier adds the full product length<=65537 x cipher x algorithm x key-name options and the full product of the four reader/consumer styles at seven boundary lengths, the rest are seeded random vectors. "+
-		"Each case is judged by: the structural monitor on the ciphertext bytes, refenc.Decrypt(kit.Encrypt(pt))==pt, kit.Decrypt(kit.Encrypt(pt))==pt with clean EOF, kit.Decrypt(refenc.Encrypt(pt))==pt, the wrap/unwrap argument monitor and the ErrDecryptionKeyMissing rule; in every odd-numbered case the key callbacks are busy: each call runs an independent small enc/v1 Encrypt/Decrypt round trip before answering (a key store that protects its own records with the scheme), which must neither fail nor disturb the outer stream; in every third case the callbacks answer from CALLBACK-OWNED MEMORY (unwrap returns the same slice of a guarded key table for a given key name and wrapped key - later decryptions of the case get that very slice again -, wrap returns a slice of a long-lived buffer) and after every Encrypt/Decrypt that memory, its guard bytes, neighbouring keys and spare capacity must be unchanged; the argument slices kit passes to the callbacks are looked at again afterwards (counted, not judged); in three of every five cases the wrap callback treats its plaintextKey ARGUMENT as its own (wraps in place and returns that very slice when the wrapping is 32 bytes long, or returns a fresh copy and then zeroes, or scribbles over, the argument) - the document must decrypt with kit and the reference all the same. distinct = distinct dimension vectors; non-trivial = every case (a real encryption and three real decryptions); case 0 additionally decrypts kit's seven testdata files with refenc. Every case with at least 2 plaintext bytes is followed by an overlapped round trip: kit's ciphertext is opened with Decrypt and read to k bytes (k in {1,10,65535,65546}, or half the plaintext), then a complete Decrypt of the reference ciphertext and a complete Encrypt (checked by refenc) run, then the rest is read; all three must be exact. WRAPPED KEY SIZE: stand-in key stores whose wrap returns an envelope of 0,1,31,32,33,40,256,511,512,513,576,640,1024,4096,16384 bytes (tag, key, padding; the matching unwrap extracts the key), both ciphers, both directions (kit Encrypt -> refenc and kit Decrypt; refenc Encrypt -> kit Decrypt); a 48000-byte envelope combined with a key name sized so that the header is exactly 65533..65538, 65552, 65553 bytes (Encrypt may refuse - counted - but what it writes must decrypt; reference documents with a header over 64 KiB are looked at, not judged); thorough adds more lengths and a real RSA-OAEP-256 wrap with a 4608-bit key generated once per process. The README sets no limit on the size of the RSA key or of the wrapped key; an EMPTY wrapped key is outside what the format promises and only observed. MANIFEST ENCODINGS: the format fixes the manifest as compact JSON (no white space - not varied) with padded standard base64 values (not varied) and says the MAC is over the exact bytes because encoders differ; the reference writer therefore spells the manifest of its documents with every member order (struct order, alphabetical, reversed, k last) and string escaping (encoding/json's, minimal with raw <>& U+2028 and non-ASCII, solidus as \\/ also in the base64 strings, \\uXXXX for all non-ASCII with surrogate pairs, \\u00xx for some ASCII characters, every character escaped) - rotating over the ordinary cases' reference documents and, in a dedicated family, all order x escaping x cipher combinations with a key name containing / < > & quotes, reverse solidus, control characters, U+2028/U+2029, non-ASCII and astral characters (and with no key name); kit must decrypt every one. Every case ends with a SOURCE-CAPABILITIES round trip: its ciphertext is decrypted once more and its plaintext encrypted once more (checked by refenc), each read from a source that is more than an io.Reader, rotating through: the read end of an os.Pipe (an *os.File whose Seek/ReadAt fail at run time), a regular file at offset 0, a regular file with the document embedded at a non-zero offset, an io.SectionReader with a non-zero base, a wrapper whose Seek always fails, a wrapper that forwards Seek to a bytes.Reader and counts the calls (observed), a bufio layer with a Seek that moves the file underneath, a plain bytes.Reader (Seek/ReadAt/WriteTo/ReadByte), and ReadAt+WriteTo+ReadByte without Seek; temp files live under $VERIF_SCRATCH and are removed right after use. Before that nested round trip kit's FAILURE paths are provoked with the case's own documents (a copy with a flipped ciphertext byte and a copy cut mid-segment decrypted to their errors, a Decrypt stream and an Encrypt stream abandoned and closed by the consumer, an Encrypt whose source breaks mid-way), so that what those paths leave in shared state is present. "+
+		"Each case is judged by: the structural monitor on the ciphertext bytes, refenc.Decrypt(kit.Encrypt(pt))==pt, kit.Decrypt(kit.Encrypt(pt))==pt with clean EOF, kit.Decrypt(refenc.Encrypt(pt))==pt, the wrap/unwrap argument monitor and the ErrDecryptionKeyMissing rule; in every odd-numbered case the key callbacks are busy: each call runs an independent small enc/v1 Encrypt/Decrypt round trip before answering (a key store that protects its own records with the scheme), which must neither fail nor disturb the outer stream; in every third case the callbacks answer from CALLBACK-OWNED MEMORY (unwrap returns the same slice of a guarded key table for a given key name and wrapped key - later decryptions of the case get that very slice again -, wrap returns a slice of a long-lived buffer) and after every Encrypt/Decrypt that memory, its guard bytes, neighbouring keys and spare capacity must be unchanged; the argument slices kit passes to the callbacks are looked at again afterwards (counted, not judged); in three of every five cases the wrap callback treats its plaintextKey ARGUMENT as its own (wraps in place and returns that very slice when the wrapping is 32 bytes long, or returns a fresh copy and then zeroes, or scribbles over, the argument) - the document must decrypt with kit and the reference all the same. distinct = distinct dimension vectors; non-trivial = every case (a real encryption and three real decryptions); case 0 additionally decrypts kit's seven testdata files with refenc. Every case with at least 2 plaintext bytes is followed by an overlapped round trip: kit's ciphertext is opened with Decrypt and read to k bytes (k in {1,10,65535,65546}, or half the plaintext), then a complete Decrypt of the reference ciphertext and a complete Encrypt (checked by refenc) run, then the rest is read; all three must be exact. KEY NAME SHAPES: the key store selects by the byte-exact name it receives (unknown name = error) and every unwrap call's name is compared with the name the document was encrypted under; a dedicated family uses as KeyName, as DecryptionKeyName and as decrypt override (with OmitKeyName) names with leading/trailing/inner white space (space, tab, LF, CR, NBSP, U+2003), white-space-only names, NUL and control characters, names that look like JSON / base64 / escapes, case-only twins and Unicode normalisation twins, while the store holds ~70 look-alike names (trimmed, padded, case-folded, normalised, unescaped, quoted spellings) each with a DIFFERENT key - every such case runs all oracles of an ordinary case (both reference directions, overlap, source capabilities). WRAPPED KEY SIZE: stand-in key stores whose wrap returns an envelope of 0,1,31,32,33,40,256,511,512,513,576,640,1024,4096,16384 bytes (tag, key, padding; the matching unwrap extracts the key), both ciphers, both directions (kit Encrypt -> refenc and kit Decrypt; refenc Encrypt -> kit Decrypt); a 48000-byte envelope combined with a key name sized so that the header is exactly 65533..65538, 65552, 65553 bytes (Encrypt may refuse - counted - but what it writes must decrypt; reference documents with a header over 64 KiB are looked at, not judged); thorough adds more lengths and a real RSA-OAEP-256 wrap with a 4608-bit key generated once per process. The README sets no limit on the size of the RSA key or of the wrapped key; an EMPTY wrapped key is outside what the format promises and only observed. MANIFEST ENCODINGS: the format fixes the manifest as compact JSON (no white space - not varied) with padded standard base64 values (not varied) and says the MAC is over the exact bytes because encoders differ; the reference writer therefore spells the manifest of its documents with every member order (struct order, alphabetical, reversed, k last) and string escaping (encoding/json's, minimal with raw <>& U+2028 and non-ASCII, solidus as \\/ also in the base64 strings, \\uXXXX for all non-ASCII with surrogate pairs, \\u00xx for some ASCII characters, every character escaped) - rotating over the ordinary cases' reference documents and, in a dedicated family, all order x escaping x cipher combinations with a key name containing / < > & quotes, reverse solidus, control characters, U+2028/U+2029, non-ASCII and astral characters (and with no key name); kit must decrypt every one. Every case ends with a SOURCE-CAPABILITIES round trip: its ciphertext is decrypted once more and its plaintext encrypted once more (checked by refenc), each read from a source that is more than an io.Reader, rotating through: the read end of an os.Pipe (an *os.File whose Seek/ReadAt fail at run time), a regular file at offset 0, a regular file with the document embedded at a non-zero offset, an io.SectionReader with a non-zero base, a wrapper whose Seek always fails, a wrapper that forwards Seek to a bytes.Reader and counts the calls (observed), a bufio layer with a Seek that moves the file underneath, a plain bytes.Reader (Seek/ReadAt/WriteTo/ReadByte), and ReadAt+WriteTo+ReadByte without Seek; temp files live under $VERIF_SCRATCH and are removed right after use. Before that nested round trip kit's FAILURE paths are provoked with the case's own documents (a copy with a flipped ciphertext byte and a copy cut mid-segment decrypted to their errors, a Decrypt stream and an Encrypt stream abandoned and closed by the consumer, an Encrypt whose source breaks mid-way), so that what those paths leave in shared state is present. "+
 		"Long key names (after the huge cases): KeyName or DecryptionKeyName sized so that the three-line header is exactly N bytes for every N in 65534..65556 (every off-by-one around 65536 and 65552), and ordinary 10 KiB / 60 KiB names, x both ciphers x {A256KW, A128CBC-NOPAD, RSA-OAEP-256} (all seven in thorough), some with a long decrypt override; EITHER Encrypt refuses (counted per side of 65536) OR the document passes the structural monitor and is decrypted by refenc and by kit (seeded reader styles) to the plaintext; the published format sets no header limit and refenc imposes none. "+
 		"Huge cases (after the ordinary ones, each run by one child): a generated plaintext of 4 GiB + 64 KiB + 100 bytes = 65538 segments (every segment differs) is streamed through kit.Encrypt and decrypted by refenc's streaming reader (quick: AES-GCM; thorough: both ciphers and also refenc's streaming Encrypt -> kit.Decrypt), "+
 		"compared position by position with the generator, plus total length, segment count and ciphertext length; this is the only place where segment numbers >= 65536 (the upper half of the nonce's 32-bit counter) occur.")
 	rec.Note("require", []string{"callback.inner_round_trips", "struct.ok", "ref_decrypts_kit.ok", "kit_decrypts_ref.ok", "roundtrip.ok", "key_missing.ok", "testdata.files_decrypted_by_refenc",
 		"src.zero_length_reads", "src.eof_with_last_data", "src.pipe_sources", "length.len=0", "length.len=k*64K", "length.len=k*64K+1", "length.len=k*64K-1",
 		"srccap.decrypt.os.Pipe", "srccap.encrypt.os.Pipe", "srccap.decrypt.file@0", "srccap.encrypt.file@0", "srccap.decrypt.file@offset", "srccap.encrypt.file@offset", "srccap.decrypt.SectionReader@base", "srccap.encrypt.SectionReader@base", "srccap.decrypt.erroring-Seek", "srccap.encrypt.erroring-Seek", "srccap.decrypt.Seek-forwarding+counting", "srccap.encrypt.Seek-forwarding+counting", "srccap.decrypt.bufio+inconsistent-Seek", "srccap.encrypt.bufio+inconsistent-Seek", "srccap.decrypt.bytes.Reader", "srccap.encrypt.bytes.Reader", "srccap.decrypt.ReadAt+WriteTo+ReadByte", "srccap.encrypt.ReadAt+WriteTo+ReadByte",
-		"manifest.ok.order=go", "manifest.ok.order=alphabetical", "manifest.ok.order=reversed", "manifest.ok.order=k-last", "manifest.ok.escape=go", "manifest.ok.escape=minimal", "manifest.ok.escape=solidus", "manifest.ok.escape=u-non-ascii", "manifest.ok.escape=u-some-ascii", "manifest.ok.escape=u-everything", "wksize.roundtrip_ok", "wksize.roundtrip_ok.wrapped_key_longer_than_512", "wksize.kit_decrypts_ref_ok", "wksize.kit_decrypts_ref_ok.wrapped_key_longer_than_512", "wksize.empty_wrapped_key_looked_at", "manifest.ordinary_cases.order=alphabetical", "manifest.ordinary_cases.escape=u-everything",
+		"manifest.ok.order=go", "manifest.ok.order=alphabetical", "manifest.ok.order=reversed", "manifest.ok.order=k-last", "manifest.ok.escape=go", "manifest.ok.escape=minimal", "manifest.ok.escape=solidus", "manifest.ok.escape=u-non-ascii", "manifest.ok.escape=u-some-ascii", "manifest.ok.escape=u-everything", "keyname.ok", "keyname.ok.KeyName", "keyname.ok.DecryptionKeyName", "keyname.ok.override", "keyname.ok.name_with_outer_white_space", "keyname.look_alikes_in_the_store", "wksize.roundtrip_ok", "wksize.roundtrip_ok.wrapped_key_longer_than_512", "wksize.kit_decrypts_ref_ok", "wksize.kit_decrypts_ref_ok.wrapped_key_longer_than_512", "wksize.empty_wrapped_key_looked_at", "manifest.ordinary_cases.order=alphabetical", "manifest.ordinary_cases.escape=u-everything",
 		"overlap.ok", "overlap.failures_provoked_before_the_nested_round_trip", "overlap.provoked.tampered", "overlap.provoked.cut-mid-segment", "overlap.provoked.decrypt_stream_abandoned_and_closed", "overlap.provoked.encrypt_stream_abandoned_and_closed", "overlap.provoked.encrypt_source_failed", "callback.argmode.wrapped-in-place-and-returned", "callback.argmode.wrapped-in-place-and-returned.same_slice_returned", "callback.argmode.zeroed-after-wrapping", "callback.argmode.scribbled-after-wrapping",
 		"callback.owned.cases", "callback.owned.memory_verified_intact", "callback.owned.unwrap_answered_from_the_same_slice", "bigname.roundtrip_ok", "bigname.roundtrip_ok.header-le-65536", "bigname.roundtrip_ok.ordinary-long-name", "bigname.encrypt_accepted.header-le-65536", "huge.kit-to-ref.ok", "huge.segments_beyond_65535_authenticated", "alg.AES", "alg.RSA", "alg.A128CBC-NOPAD", "alg.A192CBC-NOPAD", "alg.A256CBC-NOPAD", "alg.A256KW", "alg.RSA-OAEP-256"})
 	planNote := map[string]int{"covering_array_rows": nPairwise, "full_product_rows": nProduct, "total": len(specs),
-		"huge_cases": len(hugePlan()), "long_key_name_cases": len(bigPlan()), "manifest_encoding_cases": len(manifestPlan()), "wrapped_key_size_cases": len(wkPlan())}
+		"huge_cases": len(hugePlan()), "long_key_name_cases": len(bigPlan()), "manifest_encoding_cases": len(manifestPlan()), "wrapped_key_size_cases": len(wkPlan()), "key_name_shape_cases": len(namePlan())}
 	for idx, sp := range specs {
 		planNote["wrap_argument."+argModeNames[argModeOf(idx)]]++
 		if argModeOf(idx) == argInPlace && symSize(algs[sp.Alg].resolved) > 0 && algs[sp.Alg].resolved != "A256KW" {
@@ -1486,6 +1518,17 @@ func TestCheck(t *testing.T) {
 		rec.Begin(idx, h.String())
 		if runHuge(idx, h) {
 			rec.Case(idx, h.String(), true)
+		}
+	}
+	// key name shapes (after the wrapped key sizes)
+	for i, ns := range namePlan() {
+		idx := len(specs) + len(hugePlan()) + len(bigPlan()) + len(manifestPlan()) + len(wkPlan()) + i
+		if !mon.Mine(idx) {
+			continue
+		}
+		rec.Begin(idx, ns.String())
+		if runNameCase(idx, ns) {
+			rec.Case(idx, ns.String(), true)
 		}
 	}
 	// wrapped key sizes (after the manifest encodings)
